@@ -26,7 +26,7 @@ Require Import Verif.Proofs.BufferP.
    well formed (0 <= off <= len), which C19_invariant preserves.  [bview] reads a generated result as
    (state afterwards, result) of the model; the capacity policy does not occur in these methods. ---- *)
 Require Import Verif.Model.GoSem Verif.Model.BufRef.
-Require Verif.Gen.Buffers Verif.Proofs.GenBufP.
+Require Verif.Gen.Buffers Verif.Proofs.GenBufP Verif.Proofs.GenBufWP.
 
 Theorem C19_gen_reset : forall nil d sp o l,
   bview nil res_unit (Buffers.buf_reset (d, sp) o l) = cstep (fun c => c) 0 (abs_pc nil ((d, sp), o, l)) OReset.
@@ -76,6 +76,78 @@ Theorem C19_gen_write_to : forall nil d sp o l m (e : bool), 0 <= o <= Z.of_nat 
   cstep (fun c => c) 0 (abs_pc nil ((d, sp), o, l)) (OWriteTo m e).
 Proof. exact GenBufP.gen_buf_write_to. Qed.
 Print Assumptions C19_gen_write_to.
+
+(* ---- the write side.  s.buf == nil and growSlice are oracles of the translation; here they are what the
+   model says (the nil flag of the state; the capacity growSlice asks for, the rounding [rup] and the limit
+   [maxalloc]).  The generated state does not carry the nil flag, so states are compared up to it ([forget] /
+   [wview]); hypothesis [st_wf]: 0 <= off <= len, and a nil buffer has capacity 0. ---- *)
+
+(* grow(n), 0 <= n: which of the five paths is taken (reset first when the buffer is empty and off <> 0; room by
+   reslicing; a new small buffer for a nil one; sliding the unread bytes down; a larger array from growSlice),
+   the panics (ErrTooLarge twice, a range panic), the offset, lastRead, the capacity afterwards, the returned
+   write index m = the length in the model, len(s.buf) = m + n, and the bytes below m are the model's *)
+Theorem C19_gen_grow_int : forall rup maxalloc nil d sp o l n,
+  (forall c, c <= rup c) -> st_wf nil ((d, sp), o, l) = true -> 0 <= n ->
+  grow_gen_view (Buffers.buf_grow_int (d, sp) o l (fun _ => nil) (grow_slice_oracle rup maxalloc) n)
+  = grow_model_view n (grow rup maxalloc (abs_pc nil ((d, sp), o, l)) n).
+Proof. exact GenBufWP.gen_buf_grow_int. Qed.
+Print Assumptions C19_gen_grow_int.
+
+Theorem C19_gen_grow : forall rup maxalloc nil d sp o l n,
+  (forall c, c <= rup c) -> st_wf nil ((d, sp), o, l) = true ->
+  wview (bview nil res_unit (Buffers.buf_grow (d, sp) o l (fun _ => nil) (grow_slice_oracle rup maxalloc) n))
+  = wview (cstep rup maxalloc (abs_pc nil ((d, sp), o, l)) (OGrow n)).
+Proof. exact GenBufWP.gen_buf_grow. Qed.
+Print Assumptions C19_gen_grow.
+
+(* Write(p) / WriteString(s) / WriteByte(c): lastRead = opInvalid, room by reslicing or by grow, the bytes stored
+   at the end, the count len(p) and a nil error *)
+Theorem C19_gen_write : forall rup maxalloc nil d sp o l pd psp,
+  (forall c, c <= rup c) -> st_wf nil ((d, sp), o, l) = true ->
+  wview (bview nil (fun v : Z * err => Res [fst v] [] (snd v))
+           (Buffers.buf_write (d, sp) o l (fun _ => nil) (grow_slice_oracle rup maxalloc) (pd, psp)))
+  = wview (cstep rup maxalloc (abs_pc nil ((d, sp), o, l)) (OWrite pd)).
+Proof. exact GenBufWP.gen_buf_write. Qed.
+Print Assumptions C19_gen_write.
+
+Theorem C19_gen_write_string : forall rup maxalloc nil d sp o l str,
+  (forall c, c <= rup c) -> st_wf nil ((d, sp), o, l) = true ->
+  wview (bview nil (fun v : Z * err => Res [fst v] [] (snd v))
+           (Buffers.buf_write_string (d, sp) o l (fun _ => nil) (grow_slice_oracle rup maxalloc) str))
+  = wview (cstep rup maxalloc (abs_pc nil ((d, sp), o, l)) (OWriteString str)).
+Proof. exact GenBufWP.gen_buf_write_string. Qed.
+Print Assumptions C19_gen_write_string.
+
+Theorem C19_gen_write_byte : forall rup maxalloc nil d sp o l c,
+  (forall c, c <= rup c) -> st_wf nil ((d, sp), o, l) = true ->
+  wview (bview nil res_err (Buffers.buf_write_byte (d, sp) o l (fun _ => nil) (grow_slice_oracle rup maxalloc) (bz c)))
+  = wview (cstep rup maxalloc (abs_pc nil ((d, sp), o, l)) (OWriteByte c)).
+Proof. exact GenBufWP.gen_buf_write_byte. Qed.
+Print Assumptions C19_gen_write_byte.
+
+(* WriteRune(r) for every int32 r: uint32(r) < RuneSelf (so a negative rune is NOT taken for ASCII) goes through
+   WriteByte(byte(r)); any other rune gets room for UTFMax bytes and utf8.AppendRune(s.buf[:m], r) stores its
+   encoding (the replacement character for an invalid rune) without reallocating; the count is the encoding's length *)
+Theorem C19_gen_write_rune : forall rup maxalloc nil (d sp : bytes) o l r,
+  (forall c, c <= rup c) -> st_wf nil ((d, sp), o, l) = true -> -2147483648 <= r < 2147483648 ->
+  wview (bview nil (fun v : Z * err => Res [fst v] [] (snd v))
+           (Buffers.buf_write_rune (d, sp) o l (fun _ => nil) (grow_slice_oracle rup maxalloc) r))
+  = wview (cstep rup maxalloc (abs_pc nil ((d, sp), o, l)) (OWriteRune r)).
+Proof. exact GenBufWP.gen_buf_write_rune. Qed.
+Print Assumptions C19_gen_write_rune.
+
+(* ReadFrom(r): the reader is a script of answers (bytes with nil / io.EOF / another error, or a negative count);
+   r.Read is handed s.buf[len:cap] and what it delivers lands in the array of s.buf.  For EVERY script: the rounds
+   (grow(MinRead), the cut back, the window, the count added, when it stops), the total, the error handed on (EOF
+   becomes nil), the panics (errNegativeRead, ErrTooLarge), and the bytes, offset, capacity and lastRead afterwards
+   are those of the model's c_readfrom.  The loop of the source is run with fuel length(script)+1, which the
+   theorem shows to suffice. *)
+Theorem C19_gen_read_from : forall rup maxalloc nil (d sp : bytes) o l script,
+  (forall c, c <= rup c) -> 0 <= o <= Z.of_nat (length d) ->
+  wview (bview_rf nil (Buffers.buf_read_from (d, sp) o l (fun _ => nil) (grow_slice_oracle rup maxalloc) tt script))
+  = wview (cstep rup maxalloc (abs_pc nil ((d, sp), o, l)) (OReadFrom script)).
+Proof. exact GenBufWP.gen_buf_read_from. Qed.
+Print Assumptions C19_gen_read_from.
 
 (* For EVERY operation list (any arguments: sizes zero, negative, beyond the
    contents; any runes; any reader/writer scripts), from NewPrintCtx(b) for any b,
